@@ -63,3 +63,722 @@ Proof. revert prev; induction lvs as [|l t IH]; intros prev; simpl; [reflexivity
 
 Lemma ll_levels_sorted inputs : zsorted (map l_level (ll_levels (ll_of inputs))).
 Proof. unfold ll_levels. rewrite build_levels_levels. apply ll_of_lvals_sorted. Qed.
+
+(* ====================================================================== *)
+(* Published pots: totals, eligible players, nesting (C16)                 *)
+(* ====================================================================== *)
+
+(* ---------- association lists with strictly increasing keys ---------- *)
+Definition keys {A} (m : list (Z * A)) : list Z := map fst m.
+
+Lemma zmap_set_keys_sorted {A} k (v : A) m : zsorted (keys m) -> zsorted (keys (zmap_set k v m)).
+Proof.
+  induction m as [|[k' v'] t IH]; intros Hs; simpl; [constructor|].
+  destruct (k <? k') eqn:E1.
+  - apply Z.ltb_lt in E1. simpl. constructor; assumption.
+  - destruct (k =? k') eqn:E2.
+    + apply Z.eqb_eq in E2; subst. exact Hs.
+    + apply Z.ltb_ge in E1. apply Z.eqb_neq in E2. simpl.
+      specialize (IH (zsorted_tail _ _ Hs)).
+      destruct t as [|[k2 v2] t2]; simpl in *.
+      * constructor; [lia|constructor].
+      * destruct (k <? k2) eqn:E3; simpl.
+        -- constructor; [lia|exact IH].
+        -- destruct (k =? k2) eqn:E4; simpl in *.
+           ++ apply Z.eqb_eq in E4; subst. constructor; [inversion Hs; assumption|exact IH].
+           ++ constructor; [inversion Hs; assumption|exact IH].
+Qed.
+
+Lemma zmap_get_set_same {A} k (v : A) m : zsorted (keys m) -> zmap_get k (zmap_set k v m) = Some v.
+Proof.
+  induction m as [|[k' v'] t IH]; intros Hs; simpl; [now rewrite Z.eqb_refl|].
+  destruct (k <? k') eqn:E1; simpl; [now rewrite Z.eqb_refl|].
+  destruct (k =? k') eqn:E2; simpl; [now rewrite Z.eqb_refl|].
+  rewrite E2. apply IH. exact (zsorted_tail _ _ Hs).
+Qed.
+
+Lemma zmap_get_set_other {A} k j (v : A) m : j <> k -> zmap_get j (zmap_set k v m) = zmap_get j m.
+Proof.
+  intros Hne. induction m as [|[k' v'] t IH]; simpl.
+  - destruct (j =? k) eqn:E; [apply Z.eqb_eq in E; contradiction|reflexivity].
+  - destruct (k <? k') eqn:E1; simpl.
+    + destruct (j =? k) eqn:E; [apply Z.eqb_eq in E; contradiction|reflexivity].
+    + destruct (k =? k') eqn:E2; simpl.
+      * apply Z.eqb_eq in E2; subst. destruct (j =? k') eqn:E; [apply Z.eqb_eq in E; contradiction|reflexivity].
+      * destruct (j =? k'); [reflexivity|exact IH].
+Qed.
+
+Lemma zsorted_head_lt x t : zsorted (x :: t) -> forall y, In y t -> x < y.
+Proof.
+  revert x; induction t as [|z t IH]; intros x H y Hy; [contradiction|].
+  inversion H; subst. destruct Hy as [->|Hy]; [assumption|]. specialize (IH z H4 y Hy). lia.
+Qed.
+
+Lemma zmap_get_not_in {A} k (m : list (Z * A)) : ~ In k (keys m) -> zmap_get k m = None.
+Proof.
+  induction m as [|[k' v] t IH]; intros H; simpl; [reflexivity|].
+  destruct (k =? k') eqn:E; [apply Z.eqb_eq in E; subst; exfalso; apply H; now left|].
+  apply IH. intros Hin. apply H. now right.
+Qed.
+
+Lemma zmap_get_in {A} k (m : list (Z * A)) v : zsorted (keys m) -> In (k, v) m -> zmap_get k m = Some v.
+Proof.
+  induction m as [|[k' v'] t IH]; intros Hs Hin; [contradiction|]. simpl.
+  destruct Hin as [E|Hin].
+  - injection E as -> ->. now rewrite Z.eqb_refl.
+  - destruct (k =? k') eqn:E.
+    + apply Z.eqb_eq in E; subst. exfalso.
+      assert (k' < k') by (apply (zsorted_head_lt k' (keys t) Hs); apply in_map_iff; exists (k', v); auto). lia.
+    + apply IH; [exact (zsorted_tail _ _ Hs)|exact Hin].
+Qed.
+
+Lemma zmap_get_some_in {A} k (m : list (Z * A)) v : zmap_get k m = Some v -> In (k, v) m.
+Proof.
+  induction m as [|[k' v'] t IH]; simpl; [discriminate|].
+  destruct (k =? k') eqn:E; [apply Z.eqb_eq in E; subst; intros H; injection H as ->; now left|].
+  intros H. right. apply IH. exact H.
+Qed.
+
+(* ---------- the level list built by AddContributor calls ---------- *)
+Definition nonneg_inputs (inputs : list (Z * Z * bool)) : Prop := forall x, In x inputs -> 0 <= snd (fst x).
+
+Record ll_wf (ll : llist) : Prop := mkWf {
+  wf_keys : zsorted (keys (ll_contribs ll));
+  wf_lvs : zsorted (ll_lvals ll);
+  wf_level : forall i w, In (i, w) (ll_contribs ll) -> In w (ll_lvals ll);
+  wf_nonneg : forall l, In l (ll_lvals ll) -> 0 <= l }.
+
+Lemma zmap_set_in {A} k (v : A) m i w :
+  In (i, w) (zmap_set k v m) -> (i = k /\ w = v) \/ In (i, w) m.
+Proof.
+  induction m as [|[k' v'] t IH]; simpl.
+  - intros [E|[]]. injection E as <- <-. now left.
+  - destruct (k <? k'); simpl.
+    + intros [E|H]; [injection E as <- <-; now left|now right].
+    + destruct (k =? k'); simpl.
+      * intros [E|H]; [injection E as <- <-; now left|right; now right].
+      * intros [E|H]; [right; now left|]. destruct (IH H) as [H1|H1]; [now left|right; now right].
+Qed.
+
+Lemma add_contributor_wf ll w i f : ll_wf ll -> 0 <= w -> ll_wf (add_contributor ll w i f).
+Proof.
+  intros [A B C D] Hw. constructor; simpl.
+  - apply zmap_set_keys_sorted. exact A.
+  - apply zset_add_sorted. exact B.
+  - intros j v Hin. apply zset_add_In. apply zmap_set_in in Hin as [[_ ->]|Hin]; [now left|right; eapply C; exact Hin].
+  - intros l Hl. apply zset_add_In in Hl as [->|Hl]; [exact Hw|apply D; exact Hl].
+Qed.
+
+Lemma ll_of_wf inputs : nonneg_inputs inputs -> ll_wf (ll_of inputs).
+Proof.
+  unfold ll_of.
+  assert (G : forall ll, ll_wf ll -> nonneg_inputs inputs ->
+              ll_wf (fold_left (fun ll x => add_contributor ll (snd (fst x)) (fst (fst x)) (snd x)) inputs ll)).
+  { induction inputs as [|x t IH]; intros ll Hwf Hn; simpl; [exact Hwf|].
+    apply IH.
+    - apply add_contributor_wf; [exact Hwf|apply Hn; now left].
+    - intros y Hy. apply Hn. now right. }
+  apply G. constructor; simpl; try constructor; intros; contradiction.
+Qed.
+
+(* ---------- layers ---------- *)
+(* what all players, folded or not, put in between level a and level b *)
+Definition contrib_sum (cs : list (Z * Z)) (a b : Z) : Z :=
+  zsum (map (fun c => Z.min (snd c) b - Z.min (snd c) a) cs).
+
+Definition gap_free (cs : list (Z * Z)) (a b : Z) : Prop := forall i w, In (i, w) cs -> w <= a \/ b <= w.
+
+Lemma contrib_sum_add cs a b c : contrib_sum cs a b + contrib_sum cs b c = contrib_sum cs a c.
+Proof. unfold contrib_sum. induction cs as [|x t IH]; simpl; lia. Qed.
+
+Lemma layer_total cs a b :
+  a <= b -> gap_free cs a b -> zn (length (contributors_ge cs b)) * (b - a) = contrib_sum cs a b.
+Proof.
+  intros Hab Hg. unfold contributors_ge, contrib_sum, zn. rewrite map_length.
+  induction cs as [|[i w] t IH]; [simpl; lia|].
+  assert (Hg' : gap_free t a b) by (intros j v Hj; apply (Hg j v); now right).
+  specialize (IH Hg'). cbn [filter map zsum snd].
+  destruct (Hg i w (or_introl eq_refl)) as [H|H].
+  - destruct (b <=? w) eqn:E; [apply Z.leb_le in E|]; cbn [length]; rewrite ?Nat2Z.inj_succ; lia.
+  - destruct (b <=? w) eqn:E; [|apply Z.leb_gt in E; lia]. cbn [length]. rewrite Nat2Z.inj_succ. lia.
+Qed.
+
+(* eligible players at level x: the non-folded contributors who reached it, in index order *)
+Definition elig (cs : list (Z * Z)) (fs : list Z) (x : Z) : list Z :=
+  map fst (filter (fun c => (x <=? snd c) && negb (zmem (fst c) fs)) cs).
+
+Lemma orig_contribs cs fs x (wg : Z) :
+  map (fun i : Z => (i, wg)) (filter (fun i => negb (zmem i fs)) (contributors_ge cs x))
+  = map (fun i : Z => (i, wg)) (elig cs fs x).
+Proof.
+  f_equal. unfold contributors_ge, elig. induction cs as [|[i w] t IH]; simpl; [reflexivity|].
+  destruct (x <=? w); simpl; [|exact IH]. destruct (negb (zmem i fs)); simpl; [now rewrite IH|exact IH].
+Qed.
+
+Lemma elig_length_le cs fs x y : x <= y -> (length (elig cs fs y) <= length (elig cs fs x))%nat.
+Proof.
+  intros H. unfold elig. rewrite !map_length. induction cs as [|[i w] t IH]; simpl; [lia|].
+  destruct (y <=? w) eqn:E1; simpl.
+  - apply Z.leb_le in E1. replace (x <=? w) with true by (symmetry; apply Z.leb_le; lia). simpl.
+    destruct (negb (zmem i fs)); simpl; lia.
+  - destruct ((x <=? w) && negb (zmem i fs)); simpl; lia.
+Qed.
+
+Lemma elig_length_eq cs fs x y :
+  x <= y -> length (elig cs fs y) = length (elig cs fs x) -> elig cs fs y = elig cs fs x.
+Proof.
+  intros H. unfold elig. rewrite !map_length. induction cs as [|[i w] t IH]; simpl; [reflexivity|].
+  pose proof (elig_length_le t fs x y H) as Hle. unfold elig in Hle. rewrite !map_length in Hle.
+  destruct (y <=? w) eqn:E1; simpl.
+  - apply Z.leb_le in E1. replace (x <=? w) with true by (symmetry; apply Z.leb_le; lia). simpl.
+    destruct (negb (zmem i fs)); simpl; intros Hl; [f_equal; apply IH; lia|apply IH; exact Hl].
+  - destruct ((x <=? w) && negb (zmem i fs)); simpl; intros Hl; [lia|apply IH; exact Hl].
+Qed.
+
+Lemma elig_keys_sorted cs fs x : zsorted (keys cs) -> zsorted (elig cs fs x).
+Proof.
+  unfold elig, keys. intros Hs. induction cs as [|[i w] t IH]; simpl; [constructor|].
+  specialize (IH (zsorted_tail _ _ Hs)).
+  destruct ((x <=? w) && negb (zmem i fs)); simpl; [|exact IH].
+  destruct (map fst (filter _ t)) as [|j r] eqn:E; [constructor|].
+  constructor; [|exact IH].
+  apply (zsorted_head_lt i (map fst t) Hs).
+  assert (In j (map fst (filter (fun c => (x <=? snd c) && negb (zmem (fst c) fs)) t))) by (rewrite E; now left).
+  apply in_map_iff in H as [c [<- Hc]]. apply filter_In in Hc as [Hc _]. apply in_map. exact Hc.
+Qed.
+
+(* ---------- adding per-level amounts of identical eligible sets ---------- *)
+Lemma zmap_add_sorted_fold (ks : list Z) (e d : Z) : zsorted ks ->
+  forall pre, (forall a b, In a pre -> In b ks -> a < b) -> zsorted pre ->
+  fold_left (fun m kv => zmap_add (fst kv) (snd kv) m) (map (fun i => (i, d)) ks)
+            (map (fun i => (i, e + d)) pre ++ map (fun i => (i, e)) ks)
+  = map (fun i => (i, e + d)) (pre ++ ks).
+Proof.
+  induction ks as [|k t IH]; intros Hs pre Hlt Hp; simpl; [now rewrite !app_nil_r|].
+  assert (Hadd : zmap_add k d (map (fun i => (i, e + d)) pre ++ (k, e) :: map (fun i => (i, e)) t)
+               = map (fun i => (i, e + d)) (pre ++ [k]) ++ map (fun i => (i, e)) t).
+  { unfold zmap_add.
+    assert (Hget : forall m, zmap_get k (map (fun i => (i, e + d)) pre ++ (k, e) :: m) = Some e).
+    { intros m. clear IH Hp. induction pre as [|a pre IHp]; simpl; [now rewrite Z.eqb_refl|].
+      assert (a < k) by (apply Hlt; [now left|now left]).
+      replace (k =? a) with false by (symmetry; apply Z.eqb_neq; lia).
+      apply IHp. intros x y Hx Hy. apply Hlt; [now right|exact Hy]. }
+    rewrite Hget. simpl option_default.
+    clear IH Hget. induction pre as [|a pre IHp]; simpl.
+    - rewrite Z.ltb_irrefl, Z.eqb_refl. reflexivity.
+    - assert (a < k) by (apply Hlt; [now left|now left]).
+      replace (k <? a) with false by (symmetry; apply Z.ltb_ge; lia).
+      replace (k =? a) with false by (symmetry; apply Z.eqb_neq; lia).
+      f_equal. apply IHp.
+      + intros x y Hx Hy. apply Hlt; [now right|exact Hy].
+      + exact (zsorted_tail _ _ Hp). }
+  rewrite Hadd. rewrite (IH (zsorted_tail _ _ Hs) (pre ++ [k])).
+  - rewrite <- app_assoc. reflexivity.
+  - intros a b Ha Hb. apply in_app_or in Ha as [Ha|[<-|[]]].
+    + apply Hlt; [exact Ha|now right].
+    + apply (zsorted_head_lt k t Hs b Hb).
+  - clear -Hp Hlt. induction pre as [|a pre IHp]; simpl; [constructor|].
+    destruct pre as [|b pre']; simpl in *.
+    + constructor; [apply Hlt; now left|constructor].
+    + constructor; [inversion Hp; assumption|]. apply IHp; [|exact (zsorted_tail _ _ Hp)].
+      intros x y Hx Hy. apply Hlt; [now right|exact Hy].
+Qed.
+
+Lemma merge_contribs ks e d : zsorted ks ->
+  fold_left (fun m kv => zmap_add (fst kv) (snd kv) m) (map (fun i => (i, d)) ks) (map (fun i => (i, e)) ks)
+  = map (fun i => (i, e + d)) ks.
+Proof.
+  intros Hs. apply (zmap_add_sorted_fold ks e d Hs []); [intros a b []|constructor].
+Qed.
+
+(* ---------- merging: a right-recursive description of the second loop of GetPots ---------- *)
+Fixpoint merge_from (cur : pot) (rest : list pot) : list pot :=
+  match rest with
+  | [] => [cur]
+  | p :: t =>
+      if Nat.eqb (length (pt_contribs cur)) (length (pt_contribs p))
+      then merge_from (merge_into cur p) t
+      else cur :: merge_from p t
+  end.
+
+Lemma merge_fold_from rest : forall cur acc,
+  rev (fold_left merge_step rest (cur :: acc)) = rev acc ++ merge_from cur rest.
+Proof.
+  induction rest as [|p t IH]; intros cur acc; simpl; [reflexivity|].
+  destruct (Nat.eqb (length (pt_contribs cur)) (length (pt_contribs p))).
+  - apply IH.
+  - rewrite IH. simpl. rewrite <- app_assoc. reflexivity.
+Qed.
+
+Lemma merge_pots_from p rest : merge_pots (p :: rest) = merge_from p rest.
+Proof. unfold merge_pots. simpl. apply (merge_fold_from rest p []). Qed.
+
+(* ---------- what a published pot must look like ---------- *)
+Section Spec.
+  Variables (cs : list (Z * Z)) (fs : list Z).
+
+  Record pot_spec (lo : Z) (p : pot) : Prop := mkPotSpec {
+    ps_lo : lo <= pt_level p;
+    ps_wager : pt_wager p = pt_level p - lo;
+    ps_total : pt_total p = contrib_sum cs lo (pt_level p);
+    ps_contribs : pt_contribs p = map (fun i : Z => (i, pt_level p - lo)) (elig cs fs (pt_level p)) }.
+
+  Fixpoint pots_spec (lo : Z) (ps : list pot) : Prop :=
+    match ps with
+    | [] => True
+    | p :: t =>
+        pot_spec lo p /\ pots_spec (pt_level p) t /\
+        match t with
+        | [] => True
+        | q :: _ => pt_level p < pt_level q /\ (length (pt_contribs q) < length (pt_contribs p))%nat
+        end
+    end.
+
+  Hypothesis Hkeys : zsorted (keys cs).
+
+  (* the orig pot of one layer *)
+  Lemma orig_pot_spec prev l :
+    prev <= l -> gap_free cs prev l ->
+    pot_spec prev (orig_pot fs (mkLevel l (l - prev) (zn (length (contributors_ge cs l)) * (l - prev)) (contributors_ge cs l))).
+  Proof.
+    intros Hle Hg. constructor; simpl.
+    - exact Hle.
+    - reflexivity.
+    - apply layer_total; assumption.
+    - apply orig_contribs.
+  Qed.
+
+  Lemma merge_into_spec lo cur p :
+    pot_spec lo cur -> pot_spec (pt_level cur) p ->
+    length (pt_contribs cur) = length (pt_contribs p) ->
+    pot_spec lo (merge_into cur p) /\ length (pt_contribs (merge_into cur p)) = length (pt_contribs cur).
+  Proof.
+    intros [A1 A2 A3 A4] [B1 B2 B3 B4] Hlen.
+    assert (He : elig cs fs (pt_level p) = elig cs fs (pt_level cur)).
+    { apply elig_length_eq; [exact B1|]. rewrite A4, B4, !map_length in Hlen. symmetry. exact Hlen. }
+    assert (Hc : pt_contribs (merge_into cur p) = map (fun i : Z => (i, pt_level p - lo)) (elig cs fs (pt_level p))).
+    { unfold merge_into. simpl. rewrite A4, B4, He.
+      rewrite merge_contribs by (apply elig_keys_sorted; exact Hkeys).
+      apply map_ext. intros i. f_equal. lia. }
+    split.
+    - constructor; simpl.
+      + lia.
+      + rewrite A2, B2. lia.
+      + rewrite A3, B3. apply contrib_sum_add.
+      + exact Hc.
+    - rewrite Hc, A4, He, !map_length. reflexivity.
+  Qed.
+
+  (* the levels still to be processed: strictly increasing above hi, no contribution strictly
+     between consecutive ones *)
+  Fixpoint levels_ok (hi : Z) (lvs : list Z) : Prop :=
+    match lvs with
+    | [] => True
+    | l :: t => hi < l /\ gap_free cs hi l /\ levels_ok l t
+    end.
+
+  Lemma merge_from_spec lvs : forall lo cur,
+    pot_spec lo cur -> levels_ok (pt_level cur) lvs ->
+    let out := merge_from cur (map (orig_pot fs) (build_levels cs (pt_level cur) lvs)) in
+    pots_spec lo out /\
+    exists q rest, out = q :: rest /\ length (pt_contribs q) = length (pt_contribs cur) /\ pt_level cur <= pt_level q.
+  Proof.
+    induction lvs as [|l t IH]; intros lo cur Hc Hl.
+    - simpl. split; [split; [exact Hc|split; exact I]|]. exists cur, []. repeat split; lia.
+    - destruct Hl as (Hlt & Hg & Hrest). cbv zeta. cbn [build_levels map].
+      set (p := orig_pot fs (mkLevel l (l - pt_level cur) (zn (length (contributors_ge cs l)) * (l - pt_level cur)) (contributors_ge cs l))).
+      cbn [merge_from].
+      assert (Hp : pot_spec (pt_level cur) p) by (apply orig_pot_spec; [lia|exact Hg]).
+      assert (Hpl : pt_level p = l) by reflexivity.
+      destruct (Nat.eqb (length (pt_contribs cur)) (length (pt_contribs p))) eqn:E.
+      + apply Nat.eqb_eq in E. destruct (merge_into_spec lo cur p Hc Hp E) as [Hm Hml].
+        assert (Hlv : pt_level (merge_into cur p) = l) by reflexivity.
+        specialize (IH lo (merge_into cur p) Hm). rewrite Hlv in IH. specialize (IH Hrest).
+        destruct IH as (S1 & q & rest & Eq & Lq & Lv). split; [exact S1|].
+        exists q, rest. repeat split; [exact Eq|rewrite Lq; exact Hml|lia].
+      + apply Nat.eqb_neq in E.
+        specialize (IH (pt_level cur) p Hp). rewrite Hpl in IH. specialize (IH Hrest).
+        destruct IH as (S1 & q & rest & Eq & Lq & Lv).
+        split.
+        * rewrite Eq in *. simpl. split; [exact Hc|]. split; [exact S1|].
+          split; [lia|]. rewrite Lq.
+          pose proof (elig_length_le cs fs (pt_level cur) l ltac:(lia)) as Hle.
+          destruct Hc as [_ _ _ C4]. destruct Hp as [_ _ _ P4]. rewrite C4, P4, !map_length in *. simpl in *. lia.
+        * exists cur, (merge_from p (map (orig_pot fs) (build_levels cs l t))). repeat split; lia.
+  Qed.
+End Spec.
+
+(* the level list of a well-formed ll satisfies levels_ok from 0 (after a possible level 0) *)
+Lemma sorted_gap_free cs lvs :
+  (forall i w, In (i, w) cs -> In w lvs) -> zsorted lvs ->
+  forall a b t pre, lvs = pre ++ a :: b :: t -> gap_free cs a b.
+Proof.
+  intros Hin Hs a b t pre E i w Hw. specialize (Hin i w Hw). rewrite E in Hin.
+  assert (Hsub : zsorted (a :: b :: t)).
+  { rewrite E in Hs. clear -Hs. induction pre as [|x pre IH]; simpl in *; [exact Hs|]. apply IH. exact (zsorted_tail _ _ Hs). }
+  apply in_app_or in Hin as [Hin|[<-|[<-|Hin]]].
+  - left.
+    (* every element of pre is below a *)
+    assert (G : forall pre' rest x, zsorted (pre' ++ a :: rest) -> In x pre' -> x < a).
+    { clear. induction pre' as [|y pre' IH]; intros rest x Hs Hx; [contradiction|]. simpl in *.
+      destruct Hx as [->|Hx].
+      - apply (zsorted_head_lt x (pre' ++ a :: rest) Hs). apply in_or_app. right. now left.
+      - apply (IH rest x); [exact (zsorted_tail _ _ Hs)|exact Hx]. }
+    rewrite E in Hs. pose proof (G pre (b :: t) w Hs Hin). lia.
+  - left. lia.
+  - right. lia.
+  - right. pose proof (zsorted_head_lt b t (zsorted_tail _ _ Hsub) w Hin). lia.
+Qed.
+
+Lemma levels_ok_of cs all :
+  (forall i w, In (i, w) cs -> In w all) -> zsorted all ->
+  forall lvs pre hi, all = pre ++ hi :: lvs -> levels_ok cs hi lvs.
+Proof.
+  intros Hin Hs. induction lvs as [|l t IH]; intros pre hi E; simpl; [exact I|].
+  assert (Hsub : zsorted (hi :: l :: t)).
+  { rewrite E in Hs. clear -Hs. induction pre as [|x pre IHp]; simpl in *; [exact Hs|]. apply IHp. exact (zsorted_tail _ _ Hs). }
+  split; [inversion Hsub; assumption|]. split.
+  - apply (sorted_gap_free cs all Hin Hs hi l t pre E).
+  - apply (IH (pre ++ [hi]) l). rewrite <- app_assoc. exact E.
+Qed.
+
+Theorem merged_pots_spec ll :
+  ll_wf ll -> pots_spec (ll_contribs ll) (ll_folded ll) 0 (merged_pots ll).
+Proof.
+  intros [A B C D]. unfold merged_pots, ll_levels.
+  destruct (ll_lvals ll) as [|l1 t] eqn:E; [exact I|].
+  cbn [build_levels map]. rewrite merge_pots_from.
+  set (cs := ll_contribs ll) in *. set (fs := ll_folded ll) in *.
+  assert (H1 : 0 <= l1) by (apply D; now left).
+  assert (Hg : gap_free cs 0 l1).
+  { intros i w Hw. right. specialize (C i w Hw). destruct C as [<-|Hin]; [lia|].
+    pose proof (zsorted_head_lt l1 t B w Hin). lia. }
+  pose proof (orig_pot_spec cs fs 0 l1 H1 Hg) as Hp.
+  replace (l1 - 0) with l1 in * by lia.
+  set (p1 := orig_pot fs _) in *.
+  assert (Hl : levels_ok cs (pt_level p1) t).
+  { apply (levels_ok_of cs (l1 :: t) C B t [] l1). reflexivity. }
+  apply (merge_from_spec cs fs A t 0 p1 Hp Hl).
+Qed.
+
+(* ---------- the third loop: folded players are put back for display ---------- *)
+Section Final.
+  Variables (cs : list (Z * Z)) (fs : list Z).
+  Hypothesis Hkeys : zsorted (keys cs).
+
+  Definition nonfolded (kv : Z * Z) : bool := negb (zmem (fst kv) fs).
+
+  (* what a folded player's entry in a pot with lower bound lo must be, once he has been put back *)
+  Definition folded_entry (done : list Z) (lo : Z) (j : Z) : option Z :=
+    match zmap_get j cs with
+    | None => None
+    | Some w => if zmem j done && (lo <? w) then Some w else None
+    end.
+
+  Record fpot (done : list Z) (lo : Z) (p : pot) : Prop := mkFpot {
+    fp_lo : lo <= pt_level p;
+    fp_wager : pt_wager p = pt_level p - lo;
+    fp_total : pt_total p = contrib_sum cs lo (pt_level p);
+    fp_keys : zsorted (keys (pt_contribs p));
+    fp_nf : filter nonfolded (pt_contribs p) = map (fun i : Z => (i, pt_level p - lo)) (elig cs fs (pt_level p));
+    fp_folded : forall j, zmem j fs = true -> zmap_get j (pt_contribs p) = folded_entry done lo j }.
+
+  Fixpoint fpots (done : list Z) (lo : Z) (ps : list pot) : Prop :=
+    match ps with
+    | [] => True
+    | p :: t =>
+        fpot done lo p /\ fpots done (pt_level p) t /\
+        match t with
+        | [] => True
+        | q :: _ => pt_level p < pt_level q /\
+                    (length (filter nonfolded (pt_contribs q)) < length (filter nonfolded (pt_contribs p)))%nat
+        end
+    end.
+
+  Lemma elig_nonfolded x i : In i (elig cs fs x) -> zmem i fs = false.
+  Proof.
+    unfold elig. intros H. apply in_map_iff in H as [[k w] [<- Hc]]. apply filter_In in Hc as [_ Hc].
+    apply andb_prop in Hc as [_ Hc]. simpl in *. now apply negb_true_iff in Hc.
+  Qed.
+
+  Lemma filter_nonfolded_elig x (d : Z) :
+    filter nonfolded (map (fun i : Z => (i, d)) (elig cs fs x)) = map (fun i : Z => (i, d)) (elig cs fs x).
+  Proof.
+    assert (G : forall l, (forall i, In i l -> zmem i fs = false) ->
+                filter nonfolded (map (fun i : Z => (i, d)) l) = map (fun i : Z => (i, d)) l).
+    { induction l as [|a t IH]; intros H; simpl; [reflexivity|].
+      unfold nonfolded at 1. simpl. rewrite (H a (or_introl eq_refl)). simpl. f_equal. apply IH. intros i Hi. apply H. now right. }
+    apply G. intros i Hi. exact (elig_nonfolded x i Hi).
+  Qed.
+
+  Lemma keys_map_pair (l : list Z) (d : Z) : keys (map (fun i : Z => (i, d)) l) = l.
+  Proof. unfold keys. rewrite map_map. simpl. apply map_id. Qed.
+
+  Lemma pots_spec_fpots lo ps : pots_spec cs fs lo ps -> fpots [] lo ps.
+  Proof.
+    revert lo; induction ps as [|p t IH]; intros lo H; simpl in *; [exact I|].
+    destruct H as ([A1 A2 A3 A4] & Ht & Ho). split; [|split; [apply IH; exact Ht|]].
+    - constructor; try assumption.
+      + rewrite A4, keys_map_pair. apply elig_keys_sorted. exact Hkeys.
+      + rewrite A4. apply filter_nonfolded_elig.
+      + intros j Hj. unfold folded_entry. destruct (zmap_get j cs); [|]; simpl;
+          rewrite A4; apply zmap_get_not_in; rewrite keys_map_pair; intros Hin;
+            apply elig_nonfolded in Hin; congruence.
+    - destruct t as [|q t']; [exact I|]. destruct Ho as [O1 O2]. split; [exact O1|].
+      destruct Ht as ([B1 B2 B3 B4] & _). rewrite A4, B4, !filter_nonfolded_elig. rewrite A4, B4 in O2. exact O2.
+  Qed.
+
+  Lemma filter_nonfolded_set j w m : zmem j fs = true -> filter nonfolded (zmap_set j w m) = filter nonfolded m.
+  Proof.
+    intros Hj.
+    assert (Hn : forall x, nonfolded (j, x) = false) by (intros x; unfold nonfolded; simpl; now rewrite Hj).
+    induction m as [|[k v] t IH]; cbn [zmap_set filter].
+    - now rewrite Hn.
+    - destruct (j <? k) eqn:E1; cbn [filter].
+      + now rewrite Hn.
+      + destruct (j =? k) eqn:E2; cbn [filter].
+        * apply Z.eqb_eq in E2; subst. now rewrite !Hn.
+        * now rewrite IH.
+  Qed.
+
+  Lemma zmem_cons j x l : zmem j (x :: l) = (j =? x) || zmem j l.
+  Proof. reflexivity. Qed.
+
+  (* adding j to the players already put back changes nothing for the pots he is not written into *)
+  Lemma fpots_done_skip j w done : zmap_get j cs = Some w \/ zmap_get j cs = None ->
+    forall ps lo, (zmap_get j cs = Some w -> w <= lo) -> fpots done lo ps -> fpots (j :: done) lo ps.
+  Proof.
+    intros Hw. induction ps as [|p t IH]; intros lo Hlo H; simpl in *; [exact I|].
+    destruct H as ([A1 A2 A3 A4 A5 A6] & Ht & Ho). split; [|split; [|exact Ho]].
+    - constructor; try assumption. intros k Hk. rewrite (A6 k Hk). unfold folded_entry.
+      destruct (zmap_get k cs) as [v|] eqn:Ek; [|reflexivity]. rewrite zmem_cons.
+      destruct (k =? j) eqn:E; [|reflexivity]. apply Z.eqb_eq in E; subst k. simpl.
+      assert (lo <? v = false) by (apply Z.ltb_ge; apply Hlo in Ek || idtac; destruct Hw as [Hw|Hw]; rewrite Hw in Ek; [injection Ek as <-; apply Hlo; exact Hw|discriminate]).
+      rewrite H, !andb_false_r. reflexivity.
+    - apply IH; [|exact Ht]. intros E. specialize (Hlo E). lia.
+  Qed.
+
+  Lemma put_back_head j w q t : zmem j fs = true ->
+    exists q' t', put_back j w (q :: t) = q' :: t' /\ pt_level q' = pt_level q /\
+                  filter nonfolded (pt_contribs q') = filter nonfolded (pt_contribs q).
+  Proof.
+    intros Hj. cbn [put_back]. destruct (w <=? pt_level q); eexists; eexists; (split; [reflexivity|]);
+      cbn [pt_level pt_contribs]; (split; [reflexivity|apply filter_nonfolded_set; exact Hj]).
+  Qed.
+
+  Lemma put_back_fpots j w done : zmem j fs = true -> zmap_get j cs = Some w -> zmem j done = false ->
+    forall ps lo, lo < w -> fpots done lo ps -> fpots (j :: done) lo (put_back j w ps).
+  Proof.
+    intros Hj Hw Hd. induction ps as [|p t IH]; intros lo Hlo H; [exact I|].
+    cbn [fpots] in H. destruct H as ([A1 A2 A3 A4 A5 A6] & Ht & Ho).
+    set (p' := mkPot (pt_level p) (pt_wager p) (pt_total p) (zmap_set j w (pt_contribs p)) (pt_levels p)).
+    assert (Hp' : fpot (j :: done) lo p').
+    { constructor; simpl; try assumption.
+      - apply zmap_set_keys_sorted. exact A4.
+      - rewrite filter_nonfolded_set by exact Hj. exact A5.
+      - intros k Hk. unfold folded_entry. destruct (Z.eq_dec k j) as [->|Hne].
+        + rewrite zmap_get_set_same by exact A4. rewrite Hw, zmem_cons, Z.eqb_refl. simpl.
+          replace (lo <? w) with true by (symmetry; apply Z.ltb_lt; exact Hlo). reflexivity.
+        + rewrite zmap_get_set_other by exact Hne. rewrite (A6 k Hk). unfold folded_entry.
+          destruct (zmap_get k cs); [|reflexivity]. rewrite zmem_cons.
+          replace (k =? j) with false by (symmetry; apply Z.eqb_neq; exact Hne). reflexivity. }
+    assert (Hnf : filter nonfolded (pt_contribs p') = filter nonfolded (pt_contribs p))
+      by (simpl; apply filter_nonfolded_set; exact Hj).
+    assert (Hlv : pt_level p' = pt_level p) by reflexivity.
+    cbn [put_back]. fold p'.
+    destruct (w <=? pt_level p) eqn:E.
+    - apply Z.leb_le in E. cbn [fpots]. split; [exact Hp'|]. split.
+      + rewrite Hlv. apply (fpots_done_skip j w done (or_introl Hw)); [intros _; exact E|exact Ht].
+      + destruct t as [|q t']; [exact I|]. rewrite Hnf, Hlv. exact Ho.
+    - apply Z.leb_gt in E. specialize (IH (pt_level p) E Ht).
+      destruct t as [|q t'].
+      + cbn [put_back fpots]. split; [exact Hp'|split; exact I].
+      + destruct (put_back_head j w q t' Hj) as (q' & t'' & Eq & L1 & L2).
+        rewrite Eq in *. cbn [fpots]. split; [exact Hp'|]. split; [rewrite Hlv; exact IH|].
+        rewrite Hnf, Hlv, L1, L2. exact Ho.
+  Qed.
+End Final.
+
+(* ---------- all three loops together ---------- *)
+Lemma zsorted_NoDup l : zsorted l -> NoDup l.
+Proof.
+  induction l as [|x t IH]; intros H; constructor.
+  - intros Hin. pose proof (zsorted_head_lt x t H x Hin). lia.
+  - apply IH. exact (zsorted_tail _ _ H).
+Qed.
+
+Lemma zmem_true_iff x l : zmem x l = true <-> In x l.
+Proof.
+  induction l as [|y t IH]; simpl; [split; [discriminate|contradiction]|].
+  rewrite orb_true_iff, IH, Z.eqb_eq. split; intros [H|H]; auto.
+Qed.
+
+Lemma put_back_all_fpots cs fs0 :
+  zsorted (keys cs) -> (forall i w, In (i, w) cs -> 0 <= w) ->
+  forall (todo done : list Z) ps,
+    NoDup todo -> (forall j, In j todo -> zmem j fs0 = true /\ zmem j done = false) ->
+    fpots cs fs0 done 0 ps ->
+    fpots cs fs0 (rev todo ++ done) 0 (put_back_all cs todo ps).
+Proof.
+  intros Hk Hnn. unfold put_back_all.
+  induction todo as [|j t IH]; intros done ps Hnd Hin H; simpl; [exact H|].
+  inversion Hnd as [|? ? Hj Hnd']; subst.
+  destruct (Hin j (or_introl eq_refl)) as [Hf Hd].
+  rewrite <- app_assoc. simpl.
+  apply IH; [exact Hnd'| |].
+  - intros k Hk'. destruct (Hin k (or_intror Hk')) as [K1 K2]. split; [exact K1|].
+    rewrite zmem_cons. replace (k =? j) with false; [exact K2|]. symmetry. apply Z.eqb_neq. intros ->. contradiction.
+  - destruct (zmap_get j cs) as [w|] eqn:Ew; simpl.
+    + destruct (w =? 0) eqn:E0.
+      * apply Z.eqb_eq in E0. subst w.
+        apply (fpots_done_skip cs fs0 j 0 done (or_introl Ew)); [intros _; lia|exact H].
+      * apply Z.eqb_neq in E0. assert (0 <= w) by (apply (Hnn j w); apply zmap_get_some_in; exact Ew).
+        apply (put_back_fpots cs fs0 j w done Hf Ew Hd); [lia|exact H].
+    + apply (fpots_done_skip cs fs0 j 0 done (or_intror Ew)); [intros E; discriminate|exact H].
+Qed.
+
+Theorem get_pots_fpots ll :
+  ll_wf ll -> (forall i w, In (i, w) (ll_contribs ll) -> 0 <= w) -> zsorted (ll_folded ll) ->
+  fpots (ll_contribs ll) (ll_folded ll) (rev (ll_folded ll)) 0 (get_pots ll).
+Proof.
+  intros Hwf Hnn Hfs. unfold get_pots.
+  rewrite <- (app_nil_r (rev (ll_folded ll))).
+  apply put_back_all_fpots; [apply (wf_keys ll Hwf)|exact Hnn|apply zsorted_NoDup; exact Hfs| |].
+  - intros j Hj. split; [apply zmem_true_iff; exact Hj|reflexivity].
+  - apply pots_spec_fpots; [apply (wf_keys ll Hwf)|]. apply merged_pots_spec. exact Hwf.
+Qed.
+
+Lemma ll_of_folded_sorted inputs : zsorted (ll_folded (ll_of inputs)).
+Proof.
+  unfold ll_of.
+  assert (G : forall ll, zsorted (ll_folded ll) ->
+              zsorted (ll_folded (fold_left (fun ll x => add_contributor ll (snd (fst x)) (fst (fst x)) (snd x)) inputs ll))).
+  { induction inputs as [|x t IH]; intros ll H; simpl; [exact H|]. apply IH. simpl.
+    destruct (snd x); [apply zset_add_sorted; exact H|exact H]. }
+  apply G. constructor.
+Qed.
+
+Lemma ll_of_nonneg inputs : nonneg_inputs inputs -> forall i w, In (i, w) (ll_contribs (ll_of inputs)) -> 0 <= w.
+Proof.
+  intros Hn i w Hin. pose proof (ll_of_wf inputs Hn) as Hwf.
+  apply (wf_nonneg _ Hwf). apply (wf_level _ Hwf i w Hin).
+Qed.
+
+(* the readable form: one published pot with lower bound lo *)
+Record published (cs : list (Z * Z)) (fs : list Z) (lo : Z) (p : pot) : Prop := mkPublished {
+  pub_lo : lo <= pt_level p;
+  pub_wager : pt_wager p = pt_level p - lo;
+  pub_total : pt_total p = contrib_sum cs lo (pt_level p);
+  pub_eligible : filter (nonfolded fs) (pt_contribs p) = map (fun i : Z => (i, pt_level p - lo)) (elig cs fs (pt_level p));
+  pub_folded : forall j, zmem j fs = true ->
+      zmap_get j (pt_contribs p) = match zmap_get j cs with Some w => if lo <? w then Some w else None | None => None end }.
+
+Fixpoint published_chain (cs : list (Z * Z)) (fs : list Z) (lo : Z) (ps : list pot) : Prop :=
+  match ps with
+  | [] => True
+  | p :: t =>
+      published cs fs lo p /\ published_chain cs fs (pt_level p) t /\
+      match t with
+      | [] => True
+      | q :: _ => pt_level p < pt_level q /\
+                  (length (filter (nonfolded fs) (pt_contribs q)) < length (filter (nonfolded fs) (pt_contribs p)))%nat
+      end
+  end.
+
+Lemma fpots_published cs fs done : (forall j, zmem j fs = true -> zmem j done = true) ->
+  forall ps lo, fpots cs fs done lo ps -> published_chain cs fs lo ps.
+Proof.
+  intros Hall. induction ps as [|p t IH]; intros lo H; simpl in *; [exact I|].
+  destruct H as ([A1 A2 A3 A4 A5 A6] & Ht & Ho). split; [|split; [apply IH; exact Ht|exact Ho]].
+  constructor; try assumption. intros j Hj. rewrite (A6 j Hj). unfold folded_entry.
+  destruct (zmap_get j cs); [|reflexivity]. rewrite (Hall j Hj). reflexivity.
+Qed.
+
+Theorem get_pots_published inputs :
+  nonneg_inputs inputs ->
+  let ll := ll_of inputs in
+  published_chain (ll_contribs ll) (ll_folded ll) 0 (get_pots ll).
+Proof.
+  intros Hn ll.
+  apply (fpots_published _ _ (rev (ll_folded ll))).
+  - intros j Hj. apply zmem_true_iff. apply in_rev. rewrite rev_involutive. apply zmem_true_iff. exact Hj.
+  - apply get_pots_fpots; [apply ll_of_wf; exact Hn|apply ll_of_nonneg; exact Hn|apply ll_of_folded_sorted].
+Qed.
+
+(* ---------- corollaries: levels increase, totals add up to all chips put in ---------- *)
+Lemma published_levels_sorted cs fs ps : forall lo, published_chain cs fs lo ps -> zsorted (map pt_level ps).
+Proof.
+  induction ps as [|p t IH]; intros lo H; simpl in *; [constructor|].
+  destruct H as (_ & Ht & Ho). destruct t as [|q t']; [constructor|].
+  simpl. constructor; [apply Ho|]. apply (IH (pt_level p)). exact Ht.
+Qed.
+
+Definition last_level (ps : list pot) (d : Z) : Z := fold_left (fun _ p => pt_level p) ps d.
+
+Lemma published_totals cs fs ps : forall lo, published_chain cs fs lo ps ->
+  zsum (map pt_total ps) = contrib_sum cs lo (last_level ps lo).
+Proof.
+  induction ps as [|p t IH]; intros lo H; simpl in *.
+  - unfold contrib_sum. induction cs as [|x c IHc]; simpl; lia.
+  - destruct H as ([_ _ A3 _ _] & Ht & _). rewrite A3, (IH (pt_level p) Ht).
+    unfold last_level. simpl. apply contrib_sum_add.
+Qed.
+
+Lemma merge_from_last rest : forall cur d, last_level (merge_from cur rest) d = last_level (cur :: rest) d.
+Proof.
+  induction rest as [|p t IH]; intros cur d; simpl; [reflexivity|].
+  destruct (Nat.eqb _ _).
+  - rewrite IH. unfold last_level. reflexivity.
+  - unfold last_level in *. simpl. apply (IH p (pt_level cur)).
+Qed.
+
+Lemma put_back_levels j w ps : map pt_level (put_back j w ps) = map pt_level ps.
+Proof. induction ps as [|p t IH]; simpl; [reflexivity|]. destruct (w <=? pt_level p); simpl; [reflexivity|now rewrite IH]. Qed.
+
+Lemma last_level_map ps d : last_level ps d = fold_left (fun _ l => l) (map pt_level ps) d.
+Proof. unfold last_level. revert d; induction ps as [|p t IH]; intros d; simpl; [reflexivity|apply IH]. Qed.
+
+Lemma get_pots_last_level ll d :
+  last_level (get_pots ll) d = fold_left (fun _ l => l) (ll_lvals ll) d.
+Proof.
+  rewrite last_level_map. unfold get_pots, put_back_all.
+  assert (G : forall todo ps, map pt_level (fold_left (fun ps idx =>
+                 let w := option_default 0 (zmap_get idx (ll_contribs ll)) in if w =? 0 then ps else put_back idx w ps) todo ps)
+              = map pt_level ps).
+  { induction todo as [|j t IH]; intros ps; simpl; [reflexivity|]. rewrite IH.
+    destruct (_ =? 0); [reflexivity|apply put_back_levels]. }
+  rewrite G. unfold merged_pots, ll_levels. rewrite <- last_level_map.
+  destruct (ll_lvals ll) as [|l1 t] eqn:E; [reflexivity|].
+  cbn [build_levels map]. rewrite merge_pots_from, merge_from_last.
+  rewrite last_level_map.
+  assert (H : forall prev lvs, map pt_level (map (orig_pot (ll_folded ll)) (build_levels (ll_contribs ll) prev lvs)) = lvs).
+  { intros prev lvs. revert prev; induction lvs as [|l r IH]; intros prev; simpl; [reflexivity|]. now rewrite IH. }
+  cbn [map]. rewrite H. reflexivity.
+Qed.
+
+Lemma fold_last_max lvs : zsorted lvs -> forall d x, In x lvs -> x <= fold_left (fun _ l => l) lvs d.
+Proof.
+  induction lvs as [|l t IH]; intros Hs d x Hx; [contradiction|]. simpl.
+  destruct Hx as [->|Hx].
+  - destruct t as [|l2 t']; [simpl; lia|].
+    pose proof (IH (zsorted_tail _ _ Hs) x l2 (or_introl eq_refl)). inversion Hs; subst. lia.
+  - apply IH; [exact (zsorted_tail _ _ Hs)|exact Hx].
+Qed.
+
+(* the totals of the published pots add up to all chips put in *)
+Theorem get_pots_totals inputs :
+  nonneg_inputs inputs ->
+  let ll := ll_of inputs in
+  zsum (map pt_total (get_pots ll)) = zsum (map snd (ll_contribs ll)).
+Proof.
+  intros Hn ll. pose proof (get_pots_published inputs Hn) as Hp. fold ll in Hp.
+  rewrite (published_totals _ _ _ 0 Hp), get_pots_last_level.
+  pose proof (ll_of_wf inputs Hn) as Hwf. fold ll in Hwf.
+  unfold contrib_sum.
+  assert (G : forall c, In c (ll_contribs ll) -> Z.min (snd c) (fold_left (fun _ l => l) (ll_lvals ll) 0) - Z.min (snd c) 0 = snd c).
+  { intros [i w] Hc. simpl.
+    pose proof (wf_level _ Hwf i w Hc) as Hl. pose proof (wf_nonneg _ Hwf w Hl) as H0.
+    pose proof (fold_last_max _ (wf_lvs _ Hwf) 0 w Hl). lia. }
+  induction (ll_contribs ll) as [|c t IH]; simpl; [reflexivity|].
+  rewrite (G c (or_introl eq_refl)). f_equal. apply IH. intros x Hx. apply G. now right.
+Qed.
